@@ -76,11 +76,13 @@ instance : Rdr Bytes where
   sub s n := if n ≤ s.length then .ok (s.take n, s.drop n) else .error .panic
   bytes s n := if n ≤ s.length then some (s.take n, s.drop n) else none
 
+deriving instance DecidableEq for Except
+
 inductive Out (ρ ε α : Type)
   | ok (a : α) (r : ρ)
   | err (e : ε) (r : ρ)
   | fault (f : Fault)
-  deriving Repr
+  deriving Repr, DecidableEq
 
 def M (ρ ε α : Type) := ρ → Out ρ ε α
 
